@@ -575,12 +575,12 @@ class Signature:
         self.validate()
 
     def __hash__(self) -> int:
+        # Must agree with the generated __eq__: impl and callable are not compared,
+        # and the parameters are compared as a dict.
         return hash(
             (
-                tuple(self.parameters.items()),
+                frozenset(self.parameters.items()),
                 self.return_value,
-                self.impl,
-                self.callable,
                 self.is_asynq,
                 self.has_return_annotation,
                 self.allow_call,
